@@ -14,35 +14,71 @@ theorem render_addPath_some (cur r : Range) (ps : GPaths) :
 
 theorem render_addPath_none (cur : Range) (ps : GPaths) : render cur (addPath none ps) = render cur ps := rfl
 
+/-- the model agrees with the reference evaluation: same probes in the same order, each under the outer
+range narrowed along its path, and the same way of leaving -/
+def Agrees (r : GRes) (cur : Range) (p : GPaths × GSig) : Prop := r.log = render cur p.1 ∧ r.sig = p.2
+
 mutual
-  theorem runStmt_log (s : GStmt) (cur : Range) (tmp : GTmp) :
-      (runStmt s cur tmp).1 = render cur (pathsStmt s) := by
+  theorem runStmt_spec (s : GStmt) (cur : Range) (tmp : GTmp) :
+      Agrees (runStmt s cur tmp) cur (pathsStmt s) := by
     cases s with
-    | probe n => simp [runStmt, pathsStmt, render, narrow]
-    | ifs cs => simp only [runStmt, pathsStmt]; exact runClauses_log cs cur tmp
-  theorem runBlock_log (b : GBlock) (cur : Range) (tmp : GTmp) :
-      (runBlock b cur tmp).1 = render cur (pathsBlock b) := by
+    | probe n => simp [Agrees, runStmt, pathsStmt, render, narrow]
+    | ifs cs => simp only [runStmt, pathsStmt]; exact runClauses_spec cs cur tmp
+    | exit k => simp [Agrees, runStmt, pathsStmt, render]
+    | loop1 body =>
+      have h := runBlock_spec body cur tmp
+      simp only [runStmt, pathsStmt, Agrees] at h ⊢
+      exact ⟨h.1, by rw [h.2]⟩
+    | loop2 body =>
+      have h1 := runBlock_spec body cur tmp
+      simp only [runStmt, pathsStmt, Agrees] at h1 ⊢
+      rw [h1.2]
+      by_cases hs : (pathsBlock body).2.afterIteration.1 = true
+      · simp only [hs, if_true]; exact ⟨h1.1, trivial⟩
+      · simp only [hs]
+        have h2 := runBlock_spec body cur (runBlock body cur tmp).tmp
+        simp only [Agrees] at h2
+        simp only [Bool.false_eq_true, if_false, render_append]
+        exact ⟨by rw [h1.1, h2.1], by rw [h2.2]⟩
+  theorem runBlock_spec (b : GBlock) (cur : Range) (tmp : GTmp) :
+      Agrees (runBlock b cur tmp) cur (pathsBlock b) := by
     cases b with
-    | nil => simp [runBlock, pathsBlock, render]
+    | nil => simp [Agrees, runBlock, pathsBlock, render]
     | cons s b =>
-      simp only [runBlock, pathsBlock, render_append]
-      rw [runStmt_log s cur tmp, runBlock_log b cur _]
-  theorem runClauses_log (cs : GClauses) (cur : Range) (tmp : GTmp) :
-      (runClauses cs cur tmp).1 = render cur (pathsClauses cs) := by
+      have h1 := runStmt_spec s cur tmp
+      simp only [Agrees] at h1
+      simp only [runBlock, pathsBlock, Agrees]
+      rw [h1.2]
+      by_cases hs : (pathsStmt s).2 = GSig.none
+      · simp only [hs, if_true]
+        have h2 := runBlock_spec b cur (runStmt s cur tmp).tmp
+        simp only [Agrees] at h2
+        simp only [render_append]
+        exact ⟨by rw [h1.1, h2.1], h2.2⟩
+      · simp only [hs, if_false]; exact ⟨h1.1, h1.2⟩
+  theorem runClauses_spec (cs : GClauses) (cur : Range) (tmp : GTmp) :
+      Agrees (runClauses cs cur tmp) cur (pathsClauses cs) := by
     cases cs with
-    | els b => simp only [runClauses, pathsClauses]; exact runBlock_log b cur tmp
+    | els b => simp only [runClauses, pathsClauses]; exact runBlock_spec b cur tmp
     | cons c b cs =>
       simp only [runClauses, pathsClauses]
       cases hv : c.val with
       | true =>
         simp only [if_true]
         cases ho : c.own with
-        | none => simp only [render_addPath_none]; exact runBlock_log b cur _
-        | some r => simp only [render_addPath_some]; exact runBlock_log b _ _
+        | none =>
+          have h := runBlock_spec b cur none
+          simp only [Agrees, render_addPath_none] at h ⊢; exact h
+        | some r =>
+          have h := runBlock_spec b (cur.intersect r) (some r)
+          simp only [Agrees, render_addPath_some] at h ⊢; exact h
       | false =>
         simp only [Bool.false_eq_true, if_false]
-        exact runClauses_log cs cur _
+        exact runClauses_spec cs cur _
 end
+
+theorem runBlock_log (b : GBlock) (cur : Range) (tmp : GTmp) :
+    (runBlock b cur tmp).log = render cur (pathsBlock b).1 := (runBlock_spec b cur tmp).1
 
 /-- membership in a range narrowed along a path: in the outer range and in every check of the path -/
 theorem mem_narrow (cur : Range) (path : List Range) (x : Ver) :
